@@ -46,18 +46,19 @@ type RuleDef struct {
 }
 
 type Run struct {
-	Prop    string
-	Tier    string
-	Seed    int
-	Repo    string
-	Fset    *token.FileSet
-	Roots   []*packages.Package
-	ByPath  map[string]*packages.Package
-	obligs  []Oblig
-	errs    []string
-	curRule string
-	stats   map[string]int
-	keySeen map[string]int
+	Prop        string
+	Tier        string
+	Seed        int
+	Repo        string
+	Fset        *token.FileSet
+	Roots       []*packages.Package
+	ByPath      map[string]*packages.Package
+	obligs      []Oblig
+	errs        []string
+	curRule     string
+	stats       map[string]int
+	keySeen     map[string]int
+	usedAssumed map[string]bool // "not armed" entries met under their exact key in this run
 
 	cache map[string]any
 
@@ -90,6 +91,10 @@ func (r *Run) ok(key string, p token.Pos, msg string) { r.add("discharged", key,
 func (r *Run) bad(key string, p token.Pos, msg string) {
 	if why, ok := assumedTable[r.curRule+"|"+key]; ok {
 		// an entry covers every occurrence of the construct (the #N ordinals are added afterwards)
+		if r.usedAssumed == nil {
+			r.usedAssumed = map[string]bool{}
+		}
+		r.usedAssumed[r.curRule+"|"+key] = true
 		r.add("assumed", key, p, "not armed: "+why+" ("+msg+")")
 		return
 	}
@@ -450,6 +455,47 @@ func (r *Run) finish(def *PropDef, known []KnownFinding, verifDir string, start 
 				o.Status = "known"
 				usedKnown[o.Rule+"|"+o.Key] = true
 				_ = k
+			}
+		}
+	}
+	// a "not armed" entry names a construct by function and kind; the expression text after the kind
+	// (#range:vm.classMap) only tells several such constructs of one function apart. When the entry was not
+	// met under its exact key in this run, exactly one entry of the rule is about that function and kind,
+	// and exactly one unexplained report is too, a renamed table or local still is that construct.
+	{
+		prefixOf := func(rule, key string) string {
+			i := strings.Index(key, "#")
+			if i < 0 {
+				return ""
+			}
+			j := strings.Index(key[i:], ":")
+			if j < 0 {
+				return ""
+			}
+			return rule + "|" + key[:i+j+1]
+		}
+		vioByPrefix := map[string][]int{}
+		for i, o := range r.obligs {
+			if o.Status == "violation" {
+				if p := prefixOf(o.Rule, o.Key); p != "" {
+					vioByPrefix[p] = append(vioByPrefix[p], i)
+				}
+			}
+		}
+		for p, idxs := range vioByPrefix {
+			if len(idxs) != 1 {
+				continue
+			}
+			match, n := "", 0
+			for k, why := range assumedTable {
+				if strings.HasPrefix(k, p) && !r.usedAssumed[k] {
+					match, n = why, n+1
+				}
+			}
+			if n == 1 {
+				o := &r.obligs[idxs[0]]
+				o.Status = "assumed"
+				o.Msg = "not armed: " + match + " (" + o.Msg + ")"
 			}
 		}
 	}
